@@ -1740,18 +1740,14 @@ func FunExpr(query *Query, current Map, expr *sqlparser.FuncExpr, opts ...ExprOp
 			go func() {
 				defer func() {
 					if r := recover(); r != nil {
-						if query.options.errors != nil {
-							query.options.errors(recovered(r))
-						}
+						query.report(recovered(r))
 					}
 				}()
 				verifPoint("fun.bg.start")
 				_, err := function(query, current, nil, slice)
 				verifPoint("fun.bg.done")
 				if err != nil {
-					if query.options.errors != nil {
-						query.options.errors(err)
-					}
+					query.report(err)
 				}
 			}()
 			return Ommit(true), nil
@@ -1770,18 +1766,14 @@ func FunExpr(query *Query, current Map, expr *sqlparser.FuncExpr, opts ...ExprOp
 				defer query.wg.Done()
 				defer func() {
 					if r := recover(); r != nil {
-						if query.options.errors != nil {
-							query.options.errors(recovered(r))
-						}
+						query.report(recovered(r))
 					}
 				}()
 				verifPoint("fun.bg.start")
 				_, err := function(query, current, nil, slice)
 				verifPoint("fun.bg.done")
 				if err != nil {
-					if query.options.errors != nil {
-						query.options.errors(err)
-					}
+					query.report(err)
 				}
 			}()
 			return Ommit(true), nil
@@ -2120,6 +2112,19 @@ func ExecOrderBy(query *Query, current []any) ([]any, error) {
 		return nil, err
 	}
 	return current, nil
+}
+
+// report hands the error of a detached call to the caller's handler. The
+// handler runs on a background goroutine: if it panics, the panic ends there
+// and does not take the process down
+func (query *Query) report(err error) {
+	if query.options.errors == nil {
+		return
+	}
+	defer func() {
+		_ = recover()
+	}()
+	query.options.errors(err)
 }
 
 func (query *Query) exec() (result any, err error) {
